@@ -8,7 +8,7 @@
 
 From Coq Require Import ZArith QArith List Bool.
 From ML Require Import base.RustSem model.Fmt model.Number model.Parse model.Top model.Vec model.Bigint spec.Decimal spec.Round spec.RneZ spec.RneBridge
-  gen.Consts gen.Tables gen.BTables gen.PowDump proofs.LimbVal proofs.ParseFacts proofs.Glue proofs.NoUB proofs.BigintFacts2.
+  gen.Consts gen.Tables gen.BTables gen.PowDump proofs.LimbVal proofs.ParseFacts proofs.Glue proofs.NoUB proofs.BigintFacts2 proofs.FastPathFacts proofs.EndToEnd proofs.TableFacts.
 Import ListNotations.
 
 Open Scope Z_scope.
@@ -36,8 +36,20 @@ Theorem C10_rne_bits_unique :
          forall n d b1 b2 : Z, 0 <= n -> 0 < d -> rne_bits f n d b1 -> rne_bits f n d b2 -> b1 = b2.
 Proof. exact rne_bits_unique. Qed.
 
+Theorem C10_fast_class_value_invariant :
+  forall (c : config) (f : format) (b : build) (BT : btables) (L : limits) (i1 f1 : list Z) 
+           (e1 : Z) (i2 f2 : list Z) (e2 : Z),
+         In c ALL_CONFIGS ->
+         f = F32 \/ f = F64 ->
+         fast_class f i1 f1 e1 ->
+         fast_class f i2 f2 e2 ->
+         dec_value i1 f1 e1 == dec_value i2 f2 e2 ->
+         parse_float c TABLES BT L f b i1 f1 e1 = parse_float c TABLES BT L f b i2 f2 e2.
+Proof. exact fast_class_value_invariant. Qed.
+
 
 Print Assumptions C10_resplit_number_consistent.
 Print Assumptions C10_resplit_value.
 Print Assumptions C10_appended_zero_value.
 Print Assumptions C10_rne_bits_unique.
+Print Assumptions C10_fast_class_value_invariant.
